@@ -381,7 +381,7 @@ theorem xinv_flushRowGroup (pp : PagePred D) (w : W) (h : XInv pp w) : XInv pp (
       · intro g hg
         rcases List.mem_append.mp hg with hg | hg
         · exact h3 g hg
-        · have hg' : g = { numRows := w.rgRows, totalByteSize := bytes.length, fileOffset := w.fileOffset,
+        · have hg' : g = { numRows := w.rgRows, totalByteSize := chunksUncompressed metas, fileOffset := w.fileOffset,
                              totalCompressed := bytes.length, ordinal := w.rowGroups.length, chunks := metas } := by
             simpa using hg
           subst hg'; exact d2
